@@ -249,6 +249,9 @@ def run(rep):
     import c01_flow
     c01_flow.r3(rep, w)
     c01_flow.r5(rep, w)
+    import c06
+    c06.s1(rep, w)     # an open upvalue left pointing into a discarded stack region is a dangling pointer: the closure reads freed memory
+    c06.s6(rep, w)
     if rep.tier == 'thorough':
         import witness
         witness.run_witnesses(rep, 'C01', ['W1StringConstructorIsPrivate', 'W3RootAsMutIsUnsafe', 'W4GcDanglingIsPrivate', 'W5HeapIsPrivate', 'W6GcIsReadOnly'])
@@ -331,6 +334,23 @@ def r1(rep, w):
                 rc.check({'receiver', 'method'} <= fields, 'ObjBoundMethod::%s' % which,
                          'bound method does not trace receiver and method (traced: %s)' % sorted(fields),
                          f.loc() if f else '')
+
+
+def edges_traced(r, w, adt, pick, why):
+    """R1 restricted to some edges of one type, for a property that depends on exactly those edges being followed by the collector"""
+    res, impls, hm_cov = audit_types(w)
+    n = 0
+    for x in res:
+        if x['adt'] != adt:
+            continue
+        for lab in x['comps']:
+            if not pick(lab):
+                continue
+            n += 1
+            inm, inb = lab in x['mark'], lab in x['blacken']
+            r.check(inm and inb, '%s / %s is marked and blackened' % (adt.rsplit('::', 1)[-1], label_str(lab)),
+                    '%s.%s is not followed by the collector (mark: %s, blacken: %s): %s' % (adt.rsplit('::', 1)[-1], label_str(lab), inm, inb, why), w.fns[x['impl']['mark']].loc())
+    return n
 
 
 def field_writers(w, adt, field):
